@@ -600,3 +600,57 @@ keyfunc = FunctionContract(
     canary=[("for attr in attrs]", "for attr in attrs[1:]]"), ("graph.nodes[node_idx].get(attr)", "graph.nodes[node_idx].get(attrs[0])")],
 )
 CONTRACTS.append(keyfunc)
+
+
+# ------------------------------------------------------------------ NameMolType: naming without deduplication, and the choice between the two
+name_without_dedup = FunctionContract(
+    F, 'NameMolType._name_without_deduplication', 'C03', setup=setup_dedup, spec_env=dict(Mol=Mol),
+    requires=["forall(lambda i: implies(0 <= i and i < len(system.molecules), idx_of(system.molecules[i]) == i))"],      # distinct objects
+    ensures=[
+        # every molecule gets a name of its own: the common stem and its position in the system
+        "forall(lambda i: implies(0 <= i and i < len(system.molecules), system.molecules[i] in NAME and NAME[system.molecules[i]] == fmt(self.molname, i)))",
+        "forall(lambda i, j: implies(0 <= i and i < j and j < len(system.molecules), NAME[system.molecules[i]] != NAME[system.molecules[j]]))",
+        "forall(lambda m: implies(not (0 <= idx_of(m) and idx_of(m) < len(system.molecules) and system.molecules[idx_of(m)] == m), "
+        "   (m in NAME) == (m in old(NAME)) and NAME[m] == old(NAME)[m]), Mol)",
+    ],
+    modifies=['NAME'],
+    loops={'L1': LoopSpec(inv=["forall(lambda i: implies(0 <= i and i < _i, system.molecules[i] in NAME and NAME[system.molecules[i]] == fmt(self.molname, i)))",
+                               "forall(lambda m: implies(not (0 <= idx_of(m) and idx_of(m) < _i and system.molecules[idx_of(m)] == m), "
+                               "   (m in NAME) == (m in old(NAME)) and NAME[m] == old(NAME)[m]), Mol)"],
+                          modifies=['NAME'])},
+    canary=[("'{}_{}'.format(self.molname, molecule_id)", "'{}_{}'.format(self.molname, 0)")],
+)
+CONTRACTS.append(name_without_dedup)
+
+
+def setup_nmt_run(cx):
+    from pyvc.builtins import list_append
+    args = setup_dedup(cx)
+    CALLS = cx.heap('NAMING', cx.box('NAMING', TSeq(TInt)))           # 1: with deduplication, 0: without
+    system = args['system']
+    me = args['self']
+    me.attrs['deduplicate'] = cx.val('deduplicate', TBool)
+
+    def mk(tag):
+        def f(e, s):
+            e.oblige(s is system, 'named:the-molecules-of-this-system')
+            list_append(e, CALLS, tag)
+        return Builtin(f, 'naming')
+    me.attrs['_name_with_deduplication'] = mk(1)
+    me.attrs['_name_without_deduplication'] = mk(0)
+    return args
+
+
+nmt_run = FunctionContract(
+    F, 'NameMolType.run_system', 'C03', setup=setup_nmt_run, spec_env=dict(Mol=Mol),
+    requires=["len(old(NAMING)) == 0"],
+    ensures=[
+        # an empty system is left alone; otherwise the molecules are named once, with or without deduplication as asked
+        "implies(len(system.molecules) == 0, len(NAMING) == 0)",
+        "implies(len(system.molecules) > 0, len(NAMING) == 1 and NAMING[0] == (1 if self.deduplicate else 0))",
+        "result is system",
+    ],
+    modifies=['NAMING'],
+    canary=[("if self.deduplicate:", "if not self.deduplicate:"), ("if not system.molecules:", "if system.molecules:")],
+)
+CONTRACTS.append(nmt_run)
